@@ -128,6 +128,16 @@ lists. -/
 theorem no_new_shared_package_state : (Generated.packageVars == expectedPackageVars) = true := by
   decide +kernel
 
+/-- Table obligation: the schema walk of `NewSchema` still follows every kind of edge (the warm-up premise: every lazily
+initialised type reachable from the type map is initialised before the schema is published). -/
+theorem schema_walk_covers_all_edges : (Generated.schemaWalkEdges == expectedSchemaWalk) = true := by
+  decide +kernel
+
+/-- Table obligation: no function reachable (through the package's static call graph) from a call made while a mutex is
+held locks that mutex again — `sync.Mutex` self-deadlocks. -/
+theorem no_reentrant_locking : noReentrantLocking Generated.heldCalls Generated.reentrantLocks = true := by
+  decide +kernel
+
 /-- Why the shape matters: with the critical section split in two and the slot claimed by a placeholder in between, all
 accesses are still under the mutex, yet there is a schedule of two threads in which the second one finishes with the
 placeholder instead of `init`. -/
